@@ -34,6 +34,7 @@ structure JOp where
   op : String
   phases : List (List Nat)
   i : Int
+  st : Option String      -- op "life": the `.spec.lifecycleState` to set (active | paused | archived)
   deriving FromJson
 
 structure JLPhase where
@@ -51,6 +52,11 @@ structure Scn where
   pre : Option (List JPre)
   coll : Option (List JColl)
   ops : Option (List JOp)
+  -- both streams: the rest of every ObjectSetObject.  Object `id` carries collisionProtection number `cps[id]`
+  -- (0 unset, 1 Prevent, 2 IfNoController, 3 None) and conditionMappings table entry `cms[id]` (0 = none); stream
+  -- "deploy": by object id, missing = 0; stream "load": by object id modulo the list's length
+  cps : Option (List Nat)
+  cms : Option (List Nat)
   -- stream "load"
   mode : Option String
   phs : Option (List JLPhase)
@@ -60,50 +66,79 @@ structure Scn where
   rem : Option (List Nat)  -- per phase index: state of the ObjectSetPhase object of a delegated phase
   deriving FromJson
 
-/-- Symbolic slice name: the ids of the hashed content and the collision count. -/
+/-- What a content hash covers of a slice content: every object with ALL its fields (identity and fingerprint;
+the size is a function of the identity within one scenario). -/
+abbrev Key := List (Nat × Nat)
+def keyOf (content : List Obj) : Key := content.map fun o => (o.id, o.fp)
+
+/-- Symbolic slice name: the hashed content and the collision count. -/
 structure SName where
-  key : List Nat
+  key : Key
   c : Nat
   deriving DecidableEq, Repr
 
+/-- A declared collision on content keys. -/
+structure KColl where
+  a : Key
+  b : Key
+
 /-- The representative of a content key under the scenario's declared hash collisions. -/
-def canonKey (coll : List JColl) (key : List Nat) : List Nat :=
+def canonKey (coll : List KColl) (key : Key) : Key :=
   match coll.find? (fun e => e.b == key) with
   | some e => e.a
   | none => key
 
-/-- The abstract hash, instantiated injectively UP TO the real FNV-32 collisions the scenario declares (the
-Go harness checks that every declared collision is real and that no undeclared one occurs); name clashes
-with other content are also scripted through the `pre` oracle. -/
-def symHash (coll : List JColl) (content : List Obj) (c : Nat) : SName := ⟨canonKey coll (content.map (·.id)), c⟩
-def isSymHashOf (coll : List JColl) (n : SName) (content : List Obj) : Bool :=
-  n.key == canonKey coll (content.map (·.id))
+/-- The abstract hash, instantiated injectively — on whole contents: ids AND fingerprints — UP TO the real FNV-32
+collisions the scenario declares (the Go harness checks that every declared collision is real and that no
+undeclared one occurs); name clashes with other content are also scripted through the `pre` oracle. -/
+def symHash (coll : List KColl) (content : List Obj) (c : Nat) : SName := ⟨canonKey coll (keyOf content), c⟩
+def isSymHashOf (coll : List KColl) (n : SName) (content : List Obj) : Bool :=
+  n.key == canonKey coll (keyOf content)
 
 /-! ### rendering (must agree with the Go harnesses) -/
 
 def join (sep : String) (l : List String) : String := sep.intercalate l
-def idsStr (sep : String) (l : List Obj) : String := join sep (l.map fun o => toString o.id)
-def keyStr (k : List Nat) : String := if k.isEmpty then "e" else join "_" (k.map toString)
-def nameStr (n : SName) : String := s!"{keyStr n.key}.{n.c}"
+
+/-- An object is printed as its id when it is — in every field — the object the scenario builds for that id
+(`fpOf id` is that object's fingerprint), otherwise as `id~fp` with the fingerprint the harness found. -/
+def tokStr (fpOf : Nat → Nat) (id fp : Nat) : String := if fp == fpOf id then toString id else s!"{id}~{fp}"
+def idsStr (fpOf : Nat → Nat) (sep : String) (l : List Obj) : String := join sep (l.map fun o => tokStr fpOf o.id o.fp)
+def keyStr (fpOf : Nat → Nat) (k : Key) : String :=
+  if k.isEmpty then "e" else join "_" (k.map fun p => tokStr fpOf p.1 p.2)
+def nameStr (fpOf : Nat → Nat) (n : SName) : String := s!"{keyStr fpOf n.key}.{n.c}"
 def sortStrs (l : List String) : List String := l.mergeSort fun a b => !(b < a)
 
-def chunkObsStr : ChunkObs → String
+def chunkObsStr (fpOf : Nat → Nat) : ChunkObs → String
   | .err => "err"
   | .bypass => "nil"
-  | .chunks cs => join "+" (cs.map (idsStr ","))
+  | .chunks cs => join "+" (cs.map (idsStr fpOf ","))
 
-def tmplStr : Option (Template SName) → String
+def tmplStr (fpOf : Nat → Nat) : Option (Template SName) → String
   | none => "-"
-  | some t => "@" ++ join "/" (t.map fun ph => idsStr "," ph.objects ++ "|" ++ join "," (ph.slices.map nameStr))
+  | some t => "@" ++ join "/" (t.map fun ph =>
+      idsStr fpOf "," ph.objects ++ "|" ++ join "," (ph.slices.map (nameStr fpOf)))
 
-def entryStr (e : SName × Slice) : String :=
-  let ids := if e.2.objects.isEmpty then "e" else idsStr "_" e.2.objects
-  s!"{nameStr e.1}={ids}:{if e.2.ctl then "c" else "-"}{if e.2.lbl then "l" else "-"}"
+def entryStr (fpOf : Nat → Nat) (e : SName × Slice) : String :=
+  let ids := if e.2.objects.isEmpty then "e" else idsStr fpOf "_" e.2.objects
+  s!"{nameStr fpOf e.1}={ids}:{if e.2.ctl then "c" else "-"}{if e.2.lbl then "l" else "-"}"
+
+def lifeStr : Life → String
+  | .active => "a" | .paused => "p" | .archived => "r"
+
+/-- The ObjectSets that exist, as the harness reads them off the fake API after a `life` / `markdel` op. -/
+def setsStr (l : List (OSet SName)) : String :=
+  if l.isEmpty then "-" else join "," (l.map fun os => lifeStr os.life ++ (if os.deleting then "d" else ""))
 
 /-! ### stream "deploy": model -/
 
 def minSize : Nat := 128
 def maxC : Nat := 8
+
+def toLife : String → Option Life
+  | "active" => some .active
+  | "paused" => some .paused
+  | "archived" => some .archived
+  | _ => none
 
 def toStrategy : String → Option Strategy
   | "binpack" | "default" | "junk" => some .binpack
@@ -118,16 +153,28 @@ structure Dep where
   pre : List JPre
   coll : List JColl
   ops : List JOp
+  cps : List Nat
+  cms : List Nat
+
+/-- Number of collisionProtection values / conditionMappings tables the harness knows (`c14CPs`, `c14CMs`). -/
+def nMeta : Nat := 4
+
+/-- The fingerprint of the object the scenario builds for `id`: its collisionProtection and conditionMappings. -/
+def Dep.fpOf (d : Dep) (id : Nat) : Nat := d.cps[id]?.getD 0 + 10 * d.cms[id]?.getD 0
 
 def Dep.obj (d : Dep) (id : Nat) : Obj :=
-  { id, size := match d.sizes[id]? with | some 0 => none | some n => some n | none => some 0 }
+  { id, size := (match d.sizes[id]? with | some 0 => none | some n => some n | none => some 0), fp := d.fpOf id }
 def Dep.objs (d : Dep) (ids : List Nat) : List Obj := ids.map d.obj
+
+/-- The declared collisions on whole contents. -/
+def Dep.kcoll (d : Dep) : List KColl := d.coll.map fun e => { a := keyOf (d.objs e.a), b := keyOf (d.objs e.b) }
 
 /-- Mirrors `c14Valid` of the Go harness. -/
 def Dep.valid (d : Dep) : Bool :=
   let okIds (ids : List Nat) (allowBad : Bool) : Bool :=
     ids.all fun id => match d.sizes[id]? with | none => false | some 0 => allowBad | some _ => true
   d.sizes.all (fun sz => sz == 0 || sz ≥ minSize) &&
+  d.cps.all (· < nMeta) && d.cms.all (· < nMeta) &&
   d.pre.all (fun p => okIds p.slot false && okIds p.objs false && p.c < maxC) &&
   -- declared collisions: two different measurable contents; a representative is nobody's alias; one entry per alias
   d.coll.all (fun e => okIds e.a false && okIds e.b false && e.a != e.b &&
@@ -137,17 +184,19 @@ def Dep.valid (d : Dep) : Bool :=
     match op.op with
     | "chunk" => op.phases.all (okIds · true)
     | "deploy" => op.phases.all (okIds · (d.strat == .binpack))
-    | "snap" | "delos" => true
+    | "snap" | "delos" | "markdel" => true
+    | "life" => (op.st.bind toLife).isSome
     | _ => false
 
 def toDep (s : Scn) : Option Dep := do
   let strat ← toStrategy (← s.strat)
-  some { strat, limit := ← s.limit, sizes := ← s.sizes, pre := ← s.pre, coll := s.coll.getD [], ops := ← s.ops }
+  some { strat, limit := ← s.limit, sizes := ← s.sizes, pre := ← s.pre, coll := s.coll.getD [], ops := ← s.ops,
+         cps := s.cps.getD [], cms := s.cms.getD [] }
 
 /-- The slices that exist before the first op: the first entry scripted for a slot wins. -/
 def Dep.initStore (d : Dep) : Store SName :=
   d.pre.foldl (fun st p =>
-    let n := symHash d.coll (d.objs p.slot) p.c
+    let n := symHash d.kcoll (d.objs p.slot) p.c
     match getSlice st n with
     | some _ => st
     | none => st ++ [(n, { objects := d.objs p.objs, ctl := p.ctl, lbl := p.lbl, owned := false })]) []
@@ -164,17 +213,21 @@ def Dep.toOp (d : Dep) (nSets : Nat) (op : JOp) : Option Op :=
   | "deploy" => some (.deploy (op.phases.map d.objs))
   | "snap" => some .snap
   | "delos" => some (.delos (if op.i < 0 then nSets else op.i.toNat))
+  | "life" => (op.st.bind toLife).map (.life (if op.i < 0 then nSets else op.i.toNat))
+  | "markdel" => some (.markdel (if op.i < 0 then nSets else op.i.toNat))
   | _ => none
 
 /-- Print one step of the model the way the Go harness prints it. -/
-def renderStep (w w' : World SName) : Op → Obs SName → String
-  | .chunk _, .chunk outs => "K " ++ join "/" (outs.map chunkObsStr)
+def renderStep (fpOf : Nat → Nat) (w w' : World SName) : Op → Obs SName → String
+  | .chunk _, .chunk outs => "K " ++ join "/" (outs.map (chunkObsStr fpOf))
   | .deploy _, .deploy o =>
     let created := (names w'.slices).filter fun n => (getSlice w.slices n).isNone
-    s!"D {if o.ok then "ok" else "err"} T={tmplStr o.tmpl} C={join "," (created.map nameStr)} " ++
-    s!"X={join "," (sortStrs (o.deleted.map nameStr))} S={join "," (sortStrs (o.store.map entryStr))}"
+    s!"D {if o.ok then "ok" else "err"} T={tmplStr fpOf o.tmpl} C={join "," (created.map (nameStr fpOf))} " ++
+    s!"X={join "," (sortStrs (o.deleted.map (nameStr fpOf)))} S={join "," (sortStrs (o.store.map (entryStr fpOf)))}"
   | .snap, _ => match w.deploy with | none => "S -" | some _ => s!"S {w'.objectSets.length}"
   | .delos _, _ => s!"O {w'.objectSets.length}"
+  | .life _ _, _ => s!"E {setsStr w'.objectSets}"
+  | .markdel _, _ => s!"E {setsStr w'.objectSets}"
   | _, _ => "STUCK"
 
 def modelDep (d : Dep) : String :=
@@ -183,8 +236,8 @@ def modelDep (d : Dep) : String :=
     match d.toOp acc.1.objectSets.length jop with
     | none => (acc.1, acc.2 ++ ["BAD-OP"])
     | some op =>
-      let (w', ob) := modelStep d.limit d.strat (symHash d.coll) acc.1 op
-      (w', acc.2 ++ [renderStep acc.1 w' op ob])) (d.initWorld, [])
+      let (w', ob) := modelStep d.limit d.strat (symHash d.kcoll) acc.1 op
+      (w', acc.2 ++ [renderStep d.fpOf acc.1 w' op ob])) (d.initWorld, [])
   join ";" outs
 
 /-! ### stream "load": model -/
@@ -196,11 +249,16 @@ structure Ld where
   owned : List (List Nat)
   wait : Option Nat
   rem : List Nat
+  cps : List Nat
+  cms : List Nat
 
 def toLd (s : Scn) : Option Ld := do
   let w ← s.wait
   some { mode := ← s.mode, phs := ← s.phs, missing := ← s.missing, owned := ← s.owned,
-         wait := if w < 0 then none else some w.toNat, rem := s.rem.getD [] }
+         wait := if w < 0 then none else some w.toNat, rem := s.rem.getD [],
+         cps := s.cps.getD [], cms := s.cms.getD [] }
+
+def Ld.metaValid (l : Ld) : Bool := l.cps.all (· < nMeta) && l.cms.all (· < nMeta)
 
 def toRState : Nat → Option RState
   | 0 => some .absent
@@ -212,21 +270,25 @@ def toRState : Nat → Option RState
 
 def Ld.rstates (l : Ld) : Option (List RState) := l.rem.mapM toRState
 
-def lobj (id : Nat) : Obj := { id, size := some 1 }
-def lobjs (ids : List Nat) : List Obj := ids.map lobj
+def cyc (l : List Nat) (i : Nat) : Nat := if l.isEmpty then 0 else l[i % l.length]?.getD 0
+
+/-- The fingerprint of the object the load harness builds for `id` (collisionProtection, conditionMappings). -/
+def Ld.fpOf (l : Ld) (id : Nat) : Nat := cyc l.cps id + 10 * cyc l.cms id
+def Ld.obj (l : Ld) (id : Nat) : Obj := { id, size := some 1, fp := l.fpOf id }
+def Ld.objs (l : Ld) (ids : List Nat) : List Obj := ids.map l.obj
 
 /-- Slices of the load stream are named by their content (the list of ids). -/
 def Ld.template (l : Ld) : Template (List Nat) :=
-  l.phs.map fun p => { objects := lobjs p.inl, slices := p.chunks, cls := p.cls.getD false }
+  l.phs.map fun p => { objects := l.objs p.inl, slices := p.chunks, cls := p.cls.getD false }
 
 def Ld.store (l : Ld) : Store (List Nat) :=
   (l.phs.flatMap (·.chunks)).foldl (fun st ch =>
     if l.missing.contains ch then st else
     match getSlice st ch with
     | some _ => st
-    | none => st ++ [(ch, { objects := lobjs ch, ctl := false, lbl := false, owned := l.owned.contains ch })]) []
+    | none => st ++ [(ch, { objects := l.objs ch, ctl := false, lbl := false, owned := l.owned.contains ch })]) []
 
-def Ld.inline (l : Ld) : List (List Obj) := l.phs.map fun p => lobjs (p.inl ++ p.chunks.flatten)
+def Ld.inline (l : Ld) : List (List Obj) := l.phs.map fun p => l.objs (p.inl ++ p.chunks.flatten)
 
 /-- The inline twin the harness builds: the same phases (names, classes) with all objects inline. -/
 def Ld.twin (l : Ld) : Template (List Nat) := inlineTwinOf l.template l.inline
@@ -237,35 +299,36 @@ def toMode : String → Option Mode
   | "deleted" => some .deleted
   | _ => none
 
-def sliceNameStr (k : List Nat) : String := "s" ++ keyStr k
+def sliceNameStr (k : List Nat) : String := "s" ++ (if k.isEmpty then "e" else join "_" (k.map toString))
 
-def callStr (c : Call) : String :=
+def callStr (fpOf : Nat → Nat) (c : Call) : String :=
   let k := match c.remote, c.teardown with
     | false, false => "R"   -- ReconcilePhase (in-process worker)
     | false, true => "T"    -- TeardownPhase (in-process worker)
     | true, false => "Q"    -- ObjectSetPhase created with these .spec.objects
     | true, true => "X"     -- ObjectSetPhase deleted
-  s!"{k}:p{c.phase}:{idsStr "," c.objects}"
+  s!"{k}:p{c.phase}:{idsStr fpOf "," c.objects}"
 
 def resStr : CRes → String
   | .ok => "ok" | .err => "err" | .preflight => "pf"
 
-def ctlStr (withU : Bool) (o : CtlOut (List Nat)) : String :=
+def ctlStr (fpOf : Nat → Nat) (withU : Bool) (o : CtlOut (List Nat)) : String :=
   let a := match o.archived with | none => "-" | some true => "True" | some false => "False"
   let u := if withU then s!" U={join "," (o.updates.map sliceNameStr)}" else ""
   let v := match o.available with | none => "-" | some true => "True" | some false => "False"
-  s!"{resStr o.res} K={join "+" (o.calls.map callStr)}{u} A={a} F={if o.finalizerRemoved then "removed" else "kept"}" ++
+  s!"{resStr o.res} K={join "+" (o.calls.map (callStr fpOf))}{u} A={a} F={if o.finalizerRemoved then "removed" else "kept"}" ++
   s!" V={v} I={if o.inTransition then "True" else "-"}"
 
 def modelLd (l : Ld) : String :=
-  if l.mode == "load" then
+  if !l.metaValid then "BAD-SCN"
+  else if l.mode == "load" then
     let (_, upd, phases, ok) := loadPhases l.store [] l.template
-    s!"L {if ok then "ok" else "err"} P={join "/" (phases.map (idsStr ","))} U={join "," (upd.map sliceNameStr)}"
+    s!"L {if ok then "ok" else "err"} P={join "/" (phases.map (idsStr l.fpOf ","))} U={join "," (upd.map sliceNameStr)}"
   else match toMode l.mode, l.rstates with
     | some m, some rem =>
       let sliced := controller m l.store l.template rem l.wait
       let inline := controller m ([] : Store (List Nat)) l.twin rem l.wait
-      s!"C {ctlStr true sliced} ~ {ctlStr false inline}"
+      s!"C {ctlStr l.fpOf true sliced} ~ {ctlStr l.fpOf false inline}"
     | _, _ => "BAD-SCN"
 
 def model (s : Scn) : String :=
@@ -282,21 +345,35 @@ def parseList (sep : String) (s : String) : List String := if s.isEmpty then [] 
 
 def parseIds? (sep : String) (s : String) : Option (List Nat) := (parseList sep s).mapM parseNat?
 
-def parseName? (s : String) : Option SName :=
+/-- An object token: `id` (the scenario's object, fingerprint `fpOf id`) or `id~fp`. -/
+def parseTok? (fpOf : Nat → Nat) (s : String) : Option (Nat × Nat) :=
+  match s.splitOn "~" with
+  | [a] => do let id ← parseNat? a; some (id, fpOf id)
+  | [a, f] => do some (← parseNat? a, ← parseNat? f)
+  | _ => none
+
+def parseToks? (fpOf : Nat → Nat) (sep : String) (s : String) : Option (List (Nat × Nat)) :=
+  (parseList sep s).mapM (parseTok? fpOf)
+
+def parseName? (fpOf : Nat → Nat) (s : String) : Option SName :=
   match s.splitOn "." with
   | [k, c] => do
-    let key ← if k == "e" then some [] else parseIds? "_" k
+    let key ← if k == "e" then some [] else parseToks? fpOf "_" k
     some ⟨key, ← parseNat? c⟩
   | _ => none
 
 def field? (pfx : String) (f : String) : Option String :=
   if f.startsWith pfx then some (f.drop pfx.length).toString else none
 
+/-- The objects an implementation trace names: the scenario's object `id`, with the fingerprint found. -/
+def Dep.parseObjs? (d : Dep) (sep : String) (s : String) : Option (List Obj) :=
+  (parseToks? d.fpOf sep s).map fun l => l.map fun p => { d.obj p.1 with fp := p.2 }
+
 def parseChunkObs? (d : Dep) (s : String) : Option ChunkObs :=
   if s == "err" then some .err
   else if s == "nil" then some .bypass
   else do
-    let cs ← (s.splitOn "+").mapM fun c => (parseIds? "," c).map d.objs
+    let cs ← (s.splitOn "+").mapM fun c => d.parseObjs? "," c
     some (.chunks cs)
 
 def parseTmpl? (d : Dep) (s : String) : Option (Option (Template SName)) :=
@@ -306,9 +383,9 @@ def parseTmpl? (d : Dep) (s : String) : Option (Option (Template SName)) :=
     let phs ← (parseList "/" body).mapM fun p =>
       match p.splitOn "|" with
       | [a, b] => do
-        let objs ← parseIds? "," a
-        let ns ← (parseList "," b).mapM parseName?
-        some ({ objects := d.objs objs, slices := ns } : Phase SName)
+        let objs ← d.parseObjs? "," a
+        let ns ← (parseList "," b).mapM (parseName? d.fpOf)
+        some ({ objects := objs, slices := ns } : Phase SName)
       | _ => none
     some (some phs)
 
@@ -317,12 +394,12 @@ def parseEntry? (d : Dep) (s : String) : Option (SName × Slice) :=
   | [n, rest] =>
     match rest.splitOn ":" with
     | [ids, flags] => do
-      let name ← parseName? n
-      let objs ← if ids == "e" then some [] else parseIds? "_" ids
+      let name ← parseName? d.fpOf n
+      let objs ← if ids == "e" then some [] else d.parseObjs? "_" ids
       let (ctl, lbl) ← match flags with
         | "cl" => some (true, true) | "c-" => some (true, false)
         | "-l" => some (false, true) | "--" => some (false, false) | _ => none
-      some (name, { objects := d.objs objs, ctl, lbl, owned := false })
+      some (name, { objects := objs, ctl, lbl, owned := false })
     | _ => none
   | _ => none
 
@@ -331,7 +408,7 @@ def parseDeploy? (d : Dep) (step : String) : Option (DeployObs SName) :=
   | ["D", res, t, _c, x, s] => do
     let ok ← match res with | "ok" => some true | "err" => some false | _ => none
     let tmpl ← parseTmpl? d (← field? "T=" t)
-    let deleted ← (parseList "," (← field? "X=" x)).mapM parseName?
+    let deleted ← (parseList "," (← field? "X=" x)).mapM (parseName? d.fpOf)
     let store ← (parseList "," (← field? "S=" s)).mapM (parseEntry? d)
     some { ok, tmpl, deleted, store }
   | _ => none
@@ -342,13 +419,16 @@ def chunkWhy (limit : Nat) (strat : Strategy) (objs : List Obj) : ChunkObs → S
   | .err => "error-without-unmeasurable-object"
   | .bypass => "bypass-although-something-overflowed-or-strategy-chunks"
   | .chunks cs =>
-    if cs.flatten ≠ objs then "concat"
+    if cs.flatten ≠ objs then
+      -- same objects in the same order, but not equal in every field (id~fp: see `tokStr`)
+      if cs.flatten.map Obj.id == objs.map Obj.id then "concat objects-altered(collisionProtection/conditionMappings/payload)"
+      else "concat"
     else if cs.any (·.isEmpty) then "empty-chunk"
     else if strat == .binpack && !overflows limit objs then "chunked-although-nothing-overflowed"
     else "shape-or-limit"
 
 /-- Where `lossless` fails (message only): the first phase whose slices do not hold exactly its objects. -/
-def losslessWhy (desired : List (List Obj)) (o : DeployObs SName) : String :=
+def losslessWhy (fpOf : Nat → Nat) (desired : List (List Obj)) (o : DeployObs SName) : String :=
   match o.tmpl with
   | none => "no-template"
   | some t =>
@@ -358,19 +438,39 @@ def losslessWhy (desired : List (List Obj)) (o : DeployObs SName) : String :=
           (t[i]?.bind fun ph => decodePhase o.store ph) != desired[i]?) with
       | some i =>
         let ph : Phase SName := t[i]?.getD { objects := [], slices := [] }
-        let got := match decodePhase o.store ph with | some l => idsStr "," l | none => "missing-slice"
+        let gotObjs := decodePhase o.store ph
+        let got := match gotObjs with | some l => idsStr fpOf "," l | none => "missing-slice"
         let held := ph.slices.map fun n =>
-          s!"{nameStr n}=" ++ (match getSlice o.store n with | some sl => idsStr "_" sl.objects | none => "?")
-        s!"phase={i} want={idsStr "," (desired.getD i [])} referenced-slices-hold={got} [{join " " held}]"
+          s!"{nameStr fpOf n}=" ++ (match getSlice o.store n with | some sl => idsStr fpOf "_" sl.objects | none => "?")
+        let altered := match gotObjs with
+          | some l => if l.map Obj.id == (desired.getD i []).map Obj.id then
+              " objects-altered(collisionProtection/conditionMappings/payload; id~fp = fingerprint found)" else ""
+          | none => ""
+        s!"phase={i} want={idsStr fpOf "," (desired.getD i [])} referenced-slices-hold={got}{altered} [{join " " held}]"
       | none => "slice-not-controlled-by-deployment"
 
+/-- Which slice `gcSafe` misses and who still references it (message only). -/
+def gcWhy (fpOf : Nat → Nat) (s : SpecState SName) (o : DeployObs SName) : String :=
+  let gone := o.deleted ++ (names s.store).filter fun n => (getSlice o.store n).isNone
+  let inTmpl := refs (o.tmpl.getD [])
+  match gone.find? (fun n => inTmpl.contains n || s.objectSets.any fun os => (osRefs os).contains n) with
+  | some n =>
+    let by_ := if inTmpl.contains n then "the-deployment-template" else
+      match (indexed s.objectSets).find? (fun ios => (osRefs ios.2).contains n) with
+      | some (i, os) =>
+        s!"existing-ObjectSet#{i}(lifecycleState={match os.life with | .active => "Active" | .paused => "Paused" | .archived => "Archived"}" ++
+        s!"{if os.deleting then ",deletionTimestamp-set" else ""})"
+      | none => "?"
+    s!"deleted-slice={nameStr fpOf n} still-referenced-by={by_}"
+  | none => "deleted-slice-not-in-gc-scope(no owner label)"
+
 def deployWhy (d : Dep) (s : SpecState SName) (desired : List (List Obj)) (o : DeployObs SName) : String :=
-  if !lossless desired o then "lossless " ++ losslessWhy desired o
+  if !lossless desired o then "lossless " ++ losslessWhy d.fpOf desired o
   else if !failSafe s o then "fail-safe"
-  else if !namedByContent (isSymHashOf d.coll) s o then "named-by-content"
+  else if !namedByContent (isSymHashOf d.kcoll) s o then "named-by-content"
   else if !noReuse s o then "name-reused"
   else if !sameContentSameName o then "same-content-different-name"
-  else if !gcSafe s o then "gc"
+  else if !gcSafe s o then "gc " ++ gcWhy d.fpOf s o
   else "?"
 
 /-- Parse one implementation step into the observation the specification judges. -/
@@ -383,6 +483,7 @@ def parseObs? (d : Dep) (op : JOp) (st : String) : Option (Obs SName) :=
   | "deploy" => (parseDeploy? d st).map .deploy
   | "snap" => if st.startsWith "S " then some .env else none
   | "delos" => if st.startsWith "O " then some .env else none
+  | "life" | "markdel" => if st.startsWith "E " then some .env else none
   | _ => none
 
 /-- Which clause of the specification fails first (for the message only; the verdict is `checkRun`). -/
@@ -391,14 +492,14 @@ def diagnoseDep (d : Dep) (ops : List (JOp × Op)) (obs : List (Obs SName)) : St
   let mut s : SpecState SName := stateOf w0
   let mut i := 0
   for ((jop, op), ob) in ops.zip obs do
-    let (s', ok) := specStep (isSymHashOf d.coll) d.limit d.strat s op ob
+    let (s', ok) := specStep (isSymHashOf d.kcoll) d.limit d.strat s op ob
     if !ok then
       match op, ob with
       | .chunk phases, .chunk outs =>
         let mut j := 0
         for (p, o) in phases.zip outs do
           if !chunkOk d.limit d.strat p o then
-            return s!"bad chunk step={i} phase={j} {chunkWhy d.limit d.strat p o} got={chunkObsStr o}"
+            return s!"bad chunk step={i} phase={j} {chunkWhy d.limit d.strat p o} want={idsStr d.fpOf "," p} got={chunkObsStr d.fpOf o}"
           j := j + 1
         return s!"bad chunk step={i} phase-count"
       | .deploy desired, .deploy o => return s!"bad {deployWhy d s desired o} step={i} op={jop.op}"
@@ -434,7 +535,7 @@ def monitorDep (d : Dep) (out : String) : String := Id.run do
       | _ => pure ()
     | _, _ => return s!"bad parse step={i} {st.take 120}"
     i := i + 1
-  if checkRun (isSymHashOf d.coll) d.limit d.strat (stateOf d.initWorld) (ops.map (·.2)) obs then return "ok"
+  if checkRun (isSymHashOf d.kcoll) d.limit d.strat (stateOf d.initWorld) (ops.map (·.2)) obs then return "ok"
   return diagnoseDep d ops obs ++ s!" out={out.take 160}"
 
 /-! ### stream "load": monitor -/
@@ -443,20 +544,23 @@ def parseSliceName? (s : String) : Option (List Nat) := do
   let k ← field? "s" s
   if k == "e" then some [] else parseIds? "_" k
 
-def parseCall? (s : String) : Option Call :=
+def Ld.parseObjs? (l : Ld) (sep : String) (s : String) : Option (List Obj) :=
+  (parseToks? l.fpOf sep s).map fun ts => ts.map fun p => { l.obj p.1 with fp := p.2 }
+
+def parseCall? (l : Ld) (s : String) : Option Call :=
   match s.splitOn ":" with
   | [k, p, ids] => do
     let (teardown, remote) ← match k with
       | "T" => some (true, false) | "R" => some (false, false)
       | "X" => some (true, true) | "Q" => some (false, true) | _ => none
     let phase ← parseNat? (← field? "p" p)
-    some { teardown, phase, objects := lobjs (← parseIds? "," ids), remote }
+    some { teardown, phase, objects := ← l.parseObjs? "," ids, remote }
   | _ => none
 
-def parseCtl? (fs : List String) : Option (CtlOut (List Nat)) :=
+def parseCtl? (l : Ld) (fs : List String) : Option (CtlOut (List Nat)) :=
   let go (res k u a f v i : String) : Option (CtlOut (List Nat)) := do
     let res ← match res with | "ok" => some CRes.ok | "err" => some .err | "pf" => some .preflight | _ => none
-    let calls ← (parseList "+" (← field? "K=" k)).mapM parseCall?
+    let calls ← (parseList "+" (← field? "K=" k)).mapM (parseCall? l)
     let updates ← (parseList "," (← field? "U=" u)).mapM parseSliceName?
     let archived ← match ← field? "A=" a with
       | "-" => some none | "True" => some (some true) | "False" => some (some false) | _ => none
@@ -480,7 +584,7 @@ def loadWhy (l : Ld) (o : LoadObs (List Nat)) : String :=
       match (List.range d.length).find? (fun i => o.phases[i]? != d[i]?) with
       | some i =>
         let cls := match l.template[i]? with | some ph => ph.cls | none => false
-        s!"load-not-inverse phase={i} delegated={cls} want={idsStr "," (d.getD i [])} loaded={idsStr "," (o.phases.getD i [])}"
+        s!"load-not-inverse phase={i} delegated={cls} want={idsStr l.fpOf "," (d.getD i [])} loaded={idsStr l.fpOf "," (o.phases.getD i [])}"
       | none =>
         if o.phases.length != d.length then "load-not-inverse phase-count"
         else
@@ -497,7 +601,7 @@ def ctlWhy (l : Ld) (sliced inline : CtlOut (List Nat)) : String :=
     if sliced.calls != inline.calls then
       match (List.range (max sliced.calls.length inline.calls.length)).find? (fun i => sliced.calls[i]? != inline.calls[i]?) with
       | some i =>
-        let str := fun (c : Option Call) => match c with | some c => callStr c | none => "-"
+        let str := fun (c : Option Call) => match c with | some c => callStr l.fpOf c | none => "-"
         s!"calls call={i} sliced={str sliced.calls[i]?} inline={str inline.calls[i]?}"
       | none => "calls"
     else if sliced.res != inline.res then "result"
@@ -507,7 +611,8 @@ def ctlWhy (l : Ld) (sliced inline : CtlOut (List Nat)) : String :=
     else "finalizer"
 
 def monitorLd (l : Ld) (out : String) : String :=
-  if out.contains '!' then s!"bad touched {out.take 120}"
+  if !l.metaValid then (if out == "BAD-SCN" then "ok" else "bad bad-scn-expected")
+  else if out.contains '!' then s!"bad touched {out.take 120}"
   else if out.startsWith "PANIC" then s!"bad panic {out.take 160}"
   else if l.mode == "load" then
     match out.splitOn " " with
@@ -515,7 +620,7 @@ def monitorLd (l : Ld) (out : String) : String :=
       let obs : Option (LoadObs (List Nat)) := do
         let ok ← match res with | "ok" => some true | "err" => some false | _ => none
         let body ← field? "P=" p
-        let phases ← (if l.phs.isEmpty then [] else body.splitOn "/").mapM fun x => (parseIds? "," x).map lobjs
+        let phases ← (if l.phs.isEmpty then [] else body.splitOn "/").mapM fun x => l.parseObjs? "," x
         let updates ← (parseList "," (← field? "U=" u)).mapM parseSliceName?
         some { ok, phases, updates }
       match obs with
@@ -527,7 +632,7 @@ def monitorLd (l : Ld) (out : String) : String :=
     | some _, some _ =>
       match out.splitOn " ~ " with
       | [a, b] =>
-        match parseCtl? ((a.splitOn " ").drop 1), parseCtl? (b.splitOn " ") with
+        match parseCtl? l ((a.splitOn " ").drop 1), parseCtl? l (b.splitOn " ") with
         | some sliced, some inline =>
           if ctlOk l.store l.template sliced inline then "ok"
           else s!"bad sliced-differs-from-inline {ctlWhy l sliced inline} mode={l.mode} got={out.take 200}"
